@@ -76,6 +76,8 @@ class World(object):
         for j in range(nro):
             h = Host(nv + nextra + j, None, readonly=True)
             self.hosts.append(h)
+        for h in self.hosts:
+            h.fs.ubuf = bool(cfg.get('fs_ubuf', False))
         rates = cfg.get('clock_rates')
         for h in self.hosts:
             if rates:
